@@ -26,6 +26,7 @@ Good(r) ==
       [] r.act = "RotClean"    -> CleanGood(r.pre, r.keep, r.post)
       [] r.act = "RotSave"     -> NoErr(r) /\ SaveGood(r.pre, r.keep, r.marker, r.post)
       [] r.act = "RotMkLogs"   -> TRUE
+      [] r.act = "RotRekeep"   -> TRUE
       [] r.act = "PSave"       -> NoErr(r) /\ InfosGood(r.infos, BookOf(r.book), SetOf(r.peers), r.self)
                                            /\ r.file = FileOf(r.infos)
       [] r.act = "PLoad"       -> LoadGood(r.file, r.loaded, r.fatal)
@@ -45,6 +46,7 @@ Conf(r) ==
       [] r.act = "RotClean"    -> r.post = CleanDirs(r.pre, r.keep) /\ r.post = r.exp /\ r.extra = <<>>
       [] r.act = "RotSave"     -> r.post = SaveDirs(r.pre, r.keep, r.marker) /\ r.post = r.exp /\ r.extra = <<>>
       [] r.act = "RotMkLogs"   -> r.post = [r.pre EXCEPT !.data = NoSnap] /\ r.post = r.exp
+      [] r.act = "RotRekeep"   -> r.post = r.pre /\ r.post = r.exp
       [] r.act = "PSave"       -> InfosConforms(r.infos, BookOf(r.book), SetOf(r.peers), r.self)
       [] r.act = "PLoad"       -> r.loaded = LoadExpected(r.file)
       [] r.act = "PImport"     -> r.fatal \/ ImportPeersConforms(r.loaded, r.infos2, r.self2)
